@@ -136,6 +136,22 @@ def triangles():
         fam(f"G:{name}-arrays", lambda: [_cum(ps, pe, e, {"paid_loss": mk(i), "reported_loss": mk(i + 1)})
                                          for i, (ps, pe) in enumerate(q1) for e in evs[:2]])
 
+    # ---- L: refusal clauses both ways -- equal strings that are distinct objects must NOT be refused; None mixed
+    #         with a non-None risk basis / currency MUST be refused; all-None is consistent
+    def code(x):
+        return (" " + x.lower() + " ").strip().upper()        # built at run time: never the same object twice
+    for label, rbs, curs in (("L:valid-equal-strings-distinct-objects", ["accident", "accident", "accident"], ["usd", "usd", "usd"]),
+                             ("L:valid-all-None", [None, None, None], [None, None, None]),
+                             ("L:refuse-None-vs-Accident", [None, "accident", "accident"], ["usd", "usd", "usd"]),
+                             ("L:refuse-None-vs-Policy-last", ["policy", "policy", None], [None, None, None]),
+                             ("L:refuse-None-vs-currency", ["accident", "accident", "accident"], ["usd", None, "usd"]),
+                             ("L:refuse-Accident-vs-Policy", ["accident", "policy", "accident"], ["usd", "usd", "usd"])):
+        fam(label, lambda rbs=rbs, curs=curs: [
+            _cum(ps, pe, e, {"paid_loss": 10 * k + i + j, "earned_premium": 100},
+                 Metadata(risk_basis=(code(rb).capitalize() if rb else None), currency=(code(cu) if cu else None),
+                          country=code("us"), details={"lob": "L%d" % k}))
+            for k, (rb, cu) in enumerate(zip(rbs, curs)) for i, (ps, pe) in enumerate(q1[:3]) for j, e in enumerate(evs[:2])])
+
     # ---- I: restated cells (same slice and coordinates twice, different values)
     fam("I:restated-cells", lambda: [_cum(ps, pe, e, {"paid_loss": 10 * i + j + 100 * rep, "earned_premium": 7 + rep})
                                      for rep in (0, 1, 2) for i, (ps, pe) in enumerate(q1[:4]) for j, e in enumerate(evs[:2])
